@@ -164,12 +164,16 @@ type params struct {
 	Fork     *forkSpec
 	Det      string // ideal | tracked
 	Bound    int    // deviation bound of the DFS for this unit (-1: unbounded)
+	Lag      int    // PP: how often the L1 info querier may answer "leaf not indexed yet" while an insertion log is parsed
 }
 
 func (p params) String() string {
 	s := fmt.Sprintf("%s chain[%s]", p.Mode, evs(p.Hist))
 	if p.Fork != nil {
 		s += fmt.Sprintf(" fork@%d[%s] detector=%s", p.Fork.From, evs(p.Fork.Blocks), p.Det)
+	}
+	if p.Lag > 0 {
+		s += fmt.Sprintf(" l1info-lag<=%d", p.Lag)
 	}
 	return s + fmt.Sprintf(" restarts<=%d", p.Restarts)
 }
@@ -240,7 +244,11 @@ func units(tier string) []mc.Unit {
 	for _, cl := range classes(tier) {
 		for _, h := range extensions(map[int]bool{}, kindsOf(cl.Mode), cl.N, true) {
 			if !cl.Fork {
-				add(params{Mode: cl.Mode, Hist: h, Restarts: cl.Restarts, Bound: cl.Bound})
+				lag := 0
+				if cl.Mode == "PP" && (cl.N <= 2 || (tier == "thorough" && cl.N <= 4)) {
+					lag = 1
+				}
+				add(params{Mode: cl.Mode, Hist: h, Restarts: cl.Restarts, Bound: cl.Bound, Lag: lag})
 				continue
 			}
 			for f := uint64(1); f <= uint64(cl.N); f++ {
@@ -309,7 +317,10 @@ func logsOf(mode string, e ev, salt uint64, num uint64) []simchain.LogSpec {
 }
 
 // fakeL1 is the L1InfoTreeQuerier: a fixed list of leaves, index i → gerOf[i].
-type fakeL1 struct{ n int }
+type fakeL1 struct {
+	n     int
+	sched *act.Sched // PP: GetInfoByGlobalExitRoot is a gate, so that the harness can answer "not indexed yet"
+}
 
 func (f *fakeL1) leaf(i int) *l1infotreesync.L1InfoTreeLeaf {
 	return &l1infotreesync.L1InfoTreeLeaf{BlockNumber: uint64(100 + i), L1InfoTreeIndex: uint32(i), GlobalExitRoot: gerOf[i],
@@ -325,6 +336,12 @@ func (f *fakeL1) GetInfoByIndex(ctx context.Context, index uint32) (*l1infotrees
 	return f.leaf(int(index)), nil
 }
 func (f *fakeL1) GetInfoByGlobalExitRoot(ger common.Hash) (*l1infotreesync.L1InfoTreeLeaf, error) {
+	if f.sched != nil {
+		// the node's own L1 info tree syncer may not have indexed the leaf of this GER yet
+		if d := f.sched.Enter("l1info", "GetInfoByGlobalExitRoot", ger.Hex()[:10], nil); d.Err != nil {
+			return nil, db.ErrNotFound
+		}
+	}
 	i, ok := indexOfGER[ger]
 	if !ok || i >= f.n {
 		return nil, db.ErrNotFound
@@ -405,6 +422,7 @@ type world struct {
 		epoch int
 	}
 	firstPoll    bool
+	lagLeft      int // how many more times the L1 info querier may answer "not indexed yet"
 	restartsLeft int
 	forked       bool
 	notified     bool
@@ -479,6 +497,10 @@ func run(c *mc.Ctx, u mc.Unit) {
 	w.det = &fakeDetector{sched: w.sched, tracked: map[uint64]common.Hash{}}
 	client := simchain.NewClient(w.chain, w.sched, "l2")
 	l1 := &fakeL1{n: int(w.n) + 1}
+	if p.Mode == "PP" {
+		l1.sched = w.sched
+		w.lagLeft = p.Lag
+	}
 
 	dir := scratchDir()
 	dbPath := filepath.Join(dir, "lastgersync.sqlite")
@@ -699,6 +721,19 @@ func (w *world) bubble() {
 			continue
 		}
 		g := l2[0]
+		if g.Comp == "l1info" {
+			// the insertion log is being parsed: the node's L1 info tree syncer may lag behind the L2 injection
+			d := act.Directive{}
+			if w.lagLeft > 0 && w.c.Bool("l1-info-leaf-not-indexed-yet") {
+				w.lagLeft--
+				d.Err = db.ErrNotFound
+				w.tr("l1info-not-indexed-yet")
+				w.c.Witness("l1_info_leaf_not_indexed_yet_answers")
+			}
+			w.c.Transition(1)
+			w.sched.Release(g, d)
+			continue
+		}
 		if g.Op == "ChainID" { // compatibility check of the driver at every (re)start of the sync loop
 			w.release(g, false)
 			continue
@@ -1128,7 +1163,8 @@ func main() {
 				cl = append(cl, d)
 			}
 			return map[string]any{"block_kinds_pp": kindsPP, "block_kinds_fep": kindsFEP, "unit_classes": cl,
-				"tip_advance": "0..all remaining at the first poll of a download after a restart/reorg, 1..all remaining at quiescence"}
+				"tip_advance": "0..all remaining at the first poll of a download after a restart/reorg, 1..all remaining at quiescence",
+				"l1_info_lag": "PP histories without fork, N<=2 (quick) / N<=4 (thorough): at most one 'leaf not indexed yet' answer of the L1 info querier while an insertion log is parsed (choice point at every such call)"}
 		},
 	})
 }
